@@ -30,8 +30,8 @@ PATH_ARGS = ["f", "g", "d", "x", "d/g", "d/e", "d/x", "/f", "/d", "/d/e", "..", 
              "d/e/..", "/d/../x", "x/y", "f/x", "//d", "d//g", "d/", "/h", "h/f", "/h/f", "pub", "../../f", "e"]
 REST_ARGS = ["0", "2", "3", "9", "", "abc", "-1", " 3", "٣", "²", "1x", "007"]
 LOGINS = [("u1", "pw1"), ("u1", "bad"), ("u2", None), ("nobody", None), ("anonymous", None), ("u1", None), ("u2", "x")]
-SIMPLE = ["PWD", "CDUP", "SYST", "NOOP", "TYPE I", "TYPE A", "TYPE X", "PBSZ 0", "PROT P", "PROT C", "EPSV 1",
-          "FEAT", "ABOR", "PASV", "EPSV", "pwd", "Pwd", "REST", "TYPE", "MODE S", "PASS", "USER"]
+SIMPLE = ["PWD", "CDUP", "SYST", "XNOP", "TYPE I", "TYPE A", "TYPE X", "PBSZ 0", "PROT P", "PROT C", "EPSV 1",
+          "XFEA", "ABOR", "PASV", "EPSV", "pwd", "Pwd", "REST", "TYPE", "XMOD S", "PASS", "USER"]
 PATH_VERBS = ["CWD", "MKD", "RMD", "DELE", "RNFR", "RNTO", "MLST"]
 XFER = ["RETR", "STOR", "APPE", "LIST", "MLSD"]
 
